@@ -171,6 +171,7 @@ AGENT = [
     Sub(r"((?:slist_front\(&\w+\)->|\b\w+(?:\.|->))ctx_)\.reset\(\)", r"agent_reset(&(\1))", None),
     Call(r"\b(\w+)\.(resume|abort)", "agent_{h2}({h1})", None),
     Sub(r"\b(\w+)\.value\(\)", r"steady_value(\1)", None),
+    Sub(r"(?:pika|std)::chrono::(?:steady|high_resolution|system)_clock::now\(\)", "vx_clock_now()", None),
 ]
 EC = [
     Sub(r"&ec (!=|==) &throws", r"ec \1 &vx_throws", None),
